@@ -613,6 +613,85 @@ func runC05(c *Ctx) {
 			c.Notes = append(c.Notes, "AsyncHandshake starts no goroutine any more")
 		}
 	}
+
+	// ------------------------------------------------------------------------------------------------ R6
+	// The kernel keeps the address of the slot a registration was made with (epoll data), invisibly to the garbage
+	// collector: the slot of the waker has to be the one inside the object the poller holds. An accessor with a value
+	// receiver hands out the address of a field of a *copy*, which nothing on the heap refers to once the call returns.
+	c.rule("C05-R6", "a *Slot handed out by an accessor is an interior pointer of the receiver's object, never of a by-value copy of it (the waker's registration must stay reachable from the poller)", 1)
+	{
+		slotT := p.Named("internal", "Slot")
+		n := 0
+		for _, fn := range p.Funcs {
+			if fn.Parent() != nil || fn.Blocks == nil || fn.Signature.Results().Len() == 0 {
+				continue
+			}
+			returnsSlot := false
+			for i := 0; i < fn.Signature.Results().Len(); i++ {
+				if pt, ok := fn.Signature.Results().At(i).Type().(*types.Pointer); ok && types.Identical(pt.Elem(), slotT) {
+					returnsSlot = true
+				}
+			}
+			if !returnsSlot {
+				continue
+			}
+			n++
+			bad := ""
+			for _, r := range returnsOf(fn) {
+				for _, res := range r.Results {
+					if pt, ok := res.Type().(*types.Pointer); !ok || !types.Identical(pt.Elem(), slotT) {
+						continue
+					}
+					for _, leaf := range append(phiLeaves(res), strip(res)) {
+						root, ff := rootOfAddr(leaf)
+						a, isAlloc := root.(*ssa.Alloc)
+						if !isAlloc || ff == nil {
+							continue
+						}
+						// the allocation holds a copy of a by-value parameter (the receiver included)
+						eachInstr(fn, func(in ssa.Instruction) {
+							if st, ok := in.(*ssa.Store); ok && st.Addr == ssa.Value(a) {
+								if prm, isPrm := st.Val.(*ssa.Parameter); isPrm {
+									bad = prm.Name()
+								}
+							}
+						})
+					}
+				}
+			}
+			c.check(bad == "", fn, "slot address", fn.Pos(), "the slot handed out lives in the caller's object", "the *Slot returned is the address of a field of a copy of the by-value parameter "+bad+": a registration made with it is invisible to the garbage collector (nothing refers to the copy), the loop later reads a recycled slot, does not recognise the waker event and posted handlers never run")
+		}
+		if n == 0 {
+			c.bad(efdRead, "slot address", efdRead.Pos(), "no accessor returning a *Slot was found (anchor moved)")
+		}
+		// the same for a slot address taken in place: a method with a value receiver that registers &x.slot
+		for _, fn := range p.Funcs {
+			eachInstr(fn, func(in ssa.Instruction) {
+				call, ok := in.(ssa.CallInstruction)
+				if !ok || call.Common().StaticCallee() == nil {
+					return
+				}
+				for _, arg := range call.Common().Args {
+					pt, isPtr := arg.Type().(*types.Pointer)
+					if !isPtr || !types.Identical(pt.Elem(), slotT) {
+						continue
+					}
+					root, ff := rootOfAddr(strip(arg))
+					a, isAlloc := root.(*ssa.Alloc)
+					if !isAlloc || ff == nil {
+						continue
+					}
+					eachInstr(a.Parent(), func(x ssa.Instruction) {
+						if st, ok := x.(*ssa.Store); ok && st.Addr == ssa.Value(a) {
+							if prm, isPrm := st.Val.(*ssa.Parameter); isPrm {
+								c.bad(fn, "slot address", in.Pos(), "the *Slot passed to %s is the address of a field of a copy of the by-value parameter %s: a registration made with it is invisible to the garbage collector and is not the slot the owner later tests and removes", fnName(call.Common().StaticCallee()), prm.Name())
+							}
+						}
+					})
+				}
+			})
+		}
+	}
 }
 
 // isDynamicFuncCall: a call (not defer/go of a static function) whose callee is a function value.
